@@ -8,7 +8,11 @@ use std::sync::atomic::{AtomicBool, AtomicU64, Ordering};
 use std::sync::Mutex;
 use std::time::Instant;
 
-pub const VERIF_DIR: &str = "/verif";
+/// root of the verification tree (evidence/, replays/, known_findings.jsonl, target/);
+/// `MC_VERIF_DIR` overrides it so that a scratch copy can run beside the real one
+pub fn verif_dir() -> String {
+    std::env::var("MC_VERIF_DIR").unwrap_or_else(|_| "/verif".to_string())
+}
 
 #[derive(Default)]
 pub struct IdHasher(u64);
@@ -397,8 +401,8 @@ impl Report {
             "wall_s": (wall * 1000.0).round() / 1000.0,
             "violations": unknown.len(),
         });
-        let path = format!("{VERIF_DIR}/evidence/{}.json", self.prop);
-        let _ = std::fs::create_dir_all(format!("{VERIF_DIR}/evidence"));
+        let path = format!("{}/evidence/{}.json", verif_dir(), self.prop);
+        let _ = std::fs::create_dir_all(format!("{}/evidence", verif_dir()));
         if let Err(e) = std::fs::write(&path, serde_json::to_string_pretty(&ev).unwrap() + "\n") {
             eprintln!("MACHINERY: cannot write evidence {path}: {e}");
             return 2;
@@ -527,7 +531,7 @@ pub struct KnownFinding {
 }
 
 pub fn load_known_findings() -> Vec<KnownFinding> {
-    let path = format!("{VERIF_DIR}/known_findings.jsonl");
+    let path = format!("{}/known_findings.jsonl", verif_dir());
     let Ok(text) = std::fs::read_to_string(&path) else {
         return vec![];
     };
@@ -544,7 +548,7 @@ pub fn load_known_findings() -> Vec<KnownFinding> {
 }
 
 pub fn write_replay(v: &Violation) -> String {
-    let dir = format!("{VERIF_DIR}/replays");
+    let dir = format!("{}/replays", verif_dir());
     let _ = std::fs::create_dir_all(&dir);
     let body = json!({
         "property": v.prop,
